@@ -42,6 +42,23 @@ pub broadcast proof fn lemma_flat_empty()
 {
 }
 
+/// base followed by the first k items (repeatable builder slots, in call order)
+pub closed spec fn push_upto(base: Seq<Seq<u8>>, items: Seq<Seq<u8>>, k: int) -> Seq<Seq<u8>>
+    decreases k
+{
+    if k <= 0 { base } else { push_upto(base, items, k - 1).push(items[k - 1]) }
+}
+pub broadcast proof fn lemma_push_upto_zero(base: Seq<Seq<u8>>, items: Seq<Seq<u8>>)
+    ensures #[trigger] push_upto(base, items, 0) == base,
+{
+}
+pub broadcast proof fn lemma_push_upto_step(base: Seq<Seq<u8>>, items: Seq<Seq<u8>>, k: int, k1: int)
+    requires k1 == k + 1, k >= 0,
+    ensures #![trigger push_upto(base, items, k), push_upto(base, items, k1)]
+        push_upto(base, items, k1) == push_upto(base, items, k).push(items[k]),
+{
+}
+
 /// every element's length is a multiple of 8 (tags are padded to 8)
 pub closed spec fn all_mult8(s: Seq<Seq<u8>>) -> bool
     decreases s.len()
